@@ -20,6 +20,9 @@ SELECTIONS = [
     ("leaves..tutorial_get", 5),
     ("leaves..tutorial_finale", 5),
     ("leaves..tutorial_gui,leaves..tutorial_get..explicit_noop", 4),
+    # a test selected through a nested set (normal.gui) which is also the setup of another selected test
+    ("normal..tutorial_gui..client_noop,leaves..tutorial_get..explicit_noop", 3),
+    ("normal..tutorial_gui,leaves..tutorial_get..explicit_noop", 3),
 ]
 
 SMALL = [s for s in SELECTIONS if s[1] <= 2]
@@ -373,7 +376,8 @@ def graph_scenario(g, tier, props):
 
 
 HETERO_NETS = ["net5 net1", "net1 net5", "net3 net5 net1", "net5 net3", "net1 net3 net5", "cluster2.net9 cluster1.net6",
-               "cluster1.net7 cluster2.net9 net1", "net5 net2 net4"]
+               "cluster1.net7 cluster2.net9 net1", "net5 net2 net4", "net5 net1 net2", "net5 net3 net1 net2",
+               "cluster2.net9 net1 net2", "net5 net1 net2 net4"]
 MULTI_VMS = [{"vm1": "", "vm2": "only Win10\n", "vm3": "only Ubuntu\n"}, {"vm1": "only CentOS\n", "vm2": "", "vm3": "only Ubuntu\n"},
              {"vm1": "", "vm2": "", "vm3": "only Ubuntu\n"}, {"vm1": "only Fedora\n", "vm2": "", "vm3": "only Ubuntu\n"}]
 
@@ -392,7 +396,7 @@ def hetero_scenario(scen, g):
 
 def profile_C06(g, tier):
     scen = graph_scenario(g, tier, ["C06"])
-    if g.chance("hetero", 0.2):
+    if g.chance("hetero", 0.3):
         scen = hetero_scenario(scen, g)
         scen["mode"] = g.pick("hmode", ["lazy", "eager"])
     if g.chance("fail", 0.3):
